@@ -31,3 +31,4 @@ def run(ck):
     funcs.template_sizes(ck, "C08.R3")
     routes.numpy_dispatch_transparent(ck, "C15.R5")
     sizes.resize_rules(ck, {"nint": "C02.R3"})
+    funcs.route_selection(ck, "C07.R8")
